@@ -109,7 +109,7 @@ def lean_wf(ctx, o):
 
 
 def base_obs(rng, nprng, ens=None, names=None, n=None, idl=None):
-    ens = ens or rng.choice(['A', 'B'])
+    ens = ens or rng.choice(['A', 'B', 'AB', 'A1'])    # 'B' and '1' sort before '|': prefix-related ensemble names
     if names is None:
         k = rng.choice([1, 2, 3])
         names = ['%s|r%d' % (ens, i + 1) for i in range(k)] if (k > 1 or rng.random() < 0.6) else [ens]
@@ -180,7 +180,7 @@ def check_table(ctx, case):
     return probs
 
 
-MALFORMED = ['dup_names', 'nonstring_name', 'unsorted_idl', 'dup_idl', 'len_mismatch', 'too_few', 'multi_ens', 'len_names',
+MALFORMED = ['cov_grad_neg', 'cov_grad_indef', 'cov_grad_asym', 'cov_neg', 'dup_names', 'nonstring_name', 'unsorted_idl', 'dup_idl', 'len_mismatch', 'too_few', 'multi_ens', 'len_names',
              'len_idl', 'decreasing_range', 'cov_pipe', 'cov_asym', 'cov_indef', 'descending_list', 'ok_control']
 
 
@@ -216,6 +216,14 @@ def check_malformed(ctx, case):
         cov = lambda: pe.cov_Obs(1.0, 0.1, 'a|b')  # noqa: E731
     elif k == 'cov_asym':
         cov = lambda: pe.cov_Obs([1.0, 2.0], [[1.0, 0.5], [0.1, 1.0]], 'cv')  # noqa: E731
+    elif k == 'cov_neg':
+        cov = lambda: pe.cov_Obs(1.0, -0.25, 'cv')  # noqa: E731
+    elif k == 'cov_grad_neg':
+        cov = lambda: pe.cov_Obs(1.0, -0.25, 'cv', grad=[1.0])  # noqa: E731
+    elif k == 'cov_grad_indef':
+        cov = lambda: pe.cov_Obs([1.0, 2.0], [[1.0, 2.0], [2.0, 1.0]], 'cv', grad=[1.0, 0.0])  # noqa: E731
+    elif k == 'cov_grad_asym':
+        cov = lambda: pe.cov_Obs([1.0, 2.0], [[1.0, 0.2], [0.3, 1.0]], 'cv', grad=[0.0, 1.0])  # noqa: E731
     elif k == 'cov_indef':
         cov = lambda: pe.cov_Obs([1.0, 2.0], [[1.0, 2.0], [2.0, 1.0]], 'cv')  # noqa: E731
     try:
@@ -251,6 +259,7 @@ def check_sequence(ctx, case):
     nprng = np.random.default_rng(case['seed'])
     import autograd.numpy as anp
     pool = [base_obs(rng, nprng) for _ in range(4)]
+    pool.append(base_obs(rng, nprng, ens='A') + base_obs(rng, nprng, ens='AB') * 0.5)
     pool.append(pool[0] + pe.cov_Obs(0.3, 0.04, 'cvA'))
     c2 = pe.cov_Obs([0.1, 0.2], [[0.05, 0.01], [0.01, 0.03]], 'cvB')
     pool.append(pool[1] * (1 + 0.1 * c2[0]) - c2[1])
